@@ -5,9 +5,9 @@ readings), the expiry index as separate state maintained as collection.go setFil
 hooks.go do, the periodic sweeper of expire.go, the log; invariants NeverEarly, Bounded,
 NoStaleTimer, ExpiryIsLoggedDel, TTLReports; ten named broken variants (Dev) that TLC refutes.
 spec/ExpireGen.tla / ExpireSim.tla print command programs (breadth-first: one shortest program per
-sweep at which a retired index entry would have fired against a live successor, and per expiring
-sweep; simulation: long random programs), each closed by a probe with what the specification says
-is served then.  spec/ExpireTrace.tla validates recorded runs.
+sweep at which a retired index entry would have fired against a live successor, per expiring sweep,
+and per EXPIRE / PERSIST that reaches an object past its deadline but not yet swept; simulation:
+long random programs), each closed by a probe with what the specification says is served then.  spec/ExpireTrace.tla validates recorded runs.
 
 Binding: `t38conf expire-run` executes every program in real time (100 ms per tick, sweeper at an
 arbitrary phase) on a fresh real server while pollers issue GET/TTL/EXISTS/FGET/SCAN/WITHIN/
@@ -25,8 +25,8 @@ verdict: the run is repeated, and a repeated stall is INFRA.
 Program families: the breadth-first covers (two collections with one object each incl. RENAME; one
 collection with two objects, four commands; hooks and channels), random programs (TTL 0-4 s), bursts
 (12 collections expiring in one sweep: the delay must not grow with the number of collections) and
-limbo programs (EXPIRE / PERSIST of objects whose deadline has just passed, with a follower: the
-situation in which a follower that expires on its own clock loses an object for good - found by this
+limbo programs (the cover of EXPIRE / PERSIST of objects whose deadline has just passed plus random
+programs around short deadlines, each with a follower: the situation in which a follower that expires on its own clock loses an object for good - found by this
 check on the pinned tree and repaired by the `fix:` commit "a follower does not expire objects and
 hooks on its own clock").
 """
@@ -175,11 +175,13 @@ W_BURST = [80, 82, 92, 93, 94, 95, 98, 98, 99, 99]     # nearly all SET EX / EXP
 W_LIMBO = [35, 38, 63, 88, 90, 92, 96, 96, 98, 99]     # short TTLs, then EXPIRE / PERSIST around the deadline
 
 
-def simulate(ctx, name, num, maxops, maxnow, keys=("k1", "k2"), ids=("a", "b"), ttls=SIM_TTLS, tickpct=55, weights=W_MIX):
+def simulate(ctx, name, num, maxops, maxnow, keys=("k1", "k2"), ids=("a", "b"), ttls=SIM_TTLS, tickpct=55, weights=W_MIX,
+             margins=(3, 10, 12)):
     text = mc(name, "ExpireSim", list(keys), list(ids), ["h1"], ["c1"], ttls).replace(
         "====", "MCW == <<%s>>\n====" % ", ".join(str(w) for w in weights))
     r = ctx.tlc(name, MODS[:3], text,
-                "SPECIFICATION SimSpec\n" + consts(MaxNow=maxnow, MaxOps=maxops, MarginP=3, MarginA=10, Horizon=12, TickPct=tickpct, W="<- MCW", GenOps="raw:{}") +
+                "SPECIFICATION SimSpec\n" + consts(MaxNow=maxnow, MaxOps=maxops, MarginP=margins[0], MarginA=margins[1], Horizon=margins[2], TickPct=tickpct,
+                                                  W="<- MCW", GenOps="raw:{}") +
                 "INVARIANT NeverEarly Bounded NoStaleTimer ExpiryIsLoggedDel TTLReports\n",
                 workers=1, simulate=num, depth=400, timeout=900)
     if not r["ok"]:
@@ -191,11 +193,12 @@ def simulate(ctx, name, num, maxops, maxnow, keys=("k1", "k2"), ids=("a", "b"), 
     return read_programs(dest), r
 
 
-def pick_cover(progs, want, rng):
+def pick_cover(progs, want, rng, tags=("stale", "expiry")):
     """A seeded sample of the cover: stale-timer probes first, every shape of program represented."""
     by = {}
     for p in progs:
-        by.setdefault(shape(p), []).append(p)
+        if p["tag"] in tags:
+            by.setdefault(shape(p), []).append(p)
     shapes = sorted(by)
     rng.shuffle(shapes)
     shapes.sort(key=lambda s: 0 if s.startswith("stale") else 1)
@@ -324,7 +327,7 @@ def describe(rej, prog):
     ev = {k: e[k] for k in e if k not in ("aof", "restart", "follower", "dels", "sc", "src", "n")} if e.get("e") != "end" else \
         {k: e[k] for k in ("t", "aof", "restart", "follower", "dels") if k in e}
     steps = "; ".join("%s@%d %s" % (s["op"], s["at"], " ".join(str(s[x]) for x in ("k", "i", "k2", "nm") if s.get(x)) +
-                                    (" EX %.1f" % (s["ttl"] * UNIT_MS / 1000.0) if s.get("ttl", -1) >= 0 else ""))
+                                    (" EX %.2f" % (s["ttl"] * prog.get("unit", UNIT_MS) / 1000.0) if s.get("ttl", -1) >= 0 else ""))
                       for s in prog["h"] if s["op"] != "probe")
     return "%s rejected by the specification (ExpireTrace): program [%s]%s; offending event %s; the specification has %s" % (
         "+".join(sorted(rej["why"])), steps, " with a follower attached at tick %d" % prog["attach"] if prog.get("attach", -1) >= 0 else "",
@@ -525,8 +528,11 @@ def run(ctx):
         sims, rsim = simulate(ctx, "sim", ctx.pick(80, 400), ctx.pick(10, 14), ctx.pick(24, 30))
         # bursts: many collections whose objects expire in the same sweep (one TTL, hardly any time between the commands)
         burst, _ = simulate(ctx, "burst", ctx.pick(10, 40), 24, 6, keys=KEYS12, ids=("a",), ttls=[5], tickpct=5, weights=W_BURST)
-        # limbo: EXPIRE / PERSIST of objects whose deadline has just passed (served until swept), each with a follower from the start
-        limbo, _ = simulate(ctx, "limbo", ctx.pick(30, 160), 12, 14, keys=("k1",), ids=("a", "b"), ttls=[1, 2], tickpct=50, weights=W_LIMBO)
+        # limbo: EXPIRE / PERSIST of objects whose deadline has just passed (served until swept), each with a follower from the
+        # start: the cover of those transitions, and random programs around short deadlines
+        limbo_cover, _ = pick_cover(covers[0] + covers[1], ctx.pick(40, 300), rng, tags=("limbo",))
+        limbo, _ = simulate(ctx, "limbo", ctx.pick(20, 100), 12, 14, keys=("k1",), ids=("a", "b"), ttls=[1, 2, 15], tickpct=50, weights=W_LIMBO)
+        limbo = limbo_cover + limbo
         cover = cover_obj + cover_two + cover_hook
         progs = list(dress(cover, rng, follower_pct=20, restart_pct=ctx.pick(50, 100)))
         progs += dress(sims, rng, follower_pct=40, restart_pct=ctx.pick(60, 100), sc0=len(progs))
@@ -601,7 +607,7 @@ def run(ctx):
         "design_actions_taken": dres["coverage"],
         "broken_variants_refuted": dres["refuted"],
         "programs_run": len(runs),
-        "programs_by_tag": {t: sum(1 for p in progs if p["tag"] == t) for t in ("stale", "expiry", "sim")},
+        "programs_by_tag": {t: sum(1 for p in progs if p["tag"] == t) for t in ("stale", "expiry", "limbo", "sim")},
         "cover_shapes": nshapes,
         "polls_issued": sum(r["polls"] for r in runs.values()),
         "trace_events_judged": {k: cnt[k] for k in ("writes", "reads", "ttls", "ttlsdl", "htt", "xdels", "xhooks", "freads", "ends",
